@@ -181,7 +181,9 @@ type TemplateFileGoExpression struct {
 
 func (exp TemplateFileGoExpression) IsTemplateFileNode() bool { return true }
 func (exp TemplateFileGoExpression) Write(w io.Writer, indent int) error {
-	in := exp.Expression.Value
+	// Go discards carriage returns, and go/format may need a second pass to settle the layout of a
+	// comment that is followed by one.
+	in := strings.ReplaceAll(exp.Expression.Value, "\r\n", "\n")
 
 	if exp.BeforePackage {
 		in += "\\\\formatstring\npackage p\n\\\\formatstring"
